@@ -462,6 +462,81 @@ def x_istream_float(eng, st, a):
     return _extract_fp(eng, st, a, '<f')
 
 
+# ---- std::istringstream over a copy of the string (object layout of libstdc++: istream part, stringbuf at 16, basic_ios at 120)
+ISS_VBASE, ISS_BUF = 120, 16
+
+
+@ext('_ZNSt7__cxx1119basic_istringstreamIcSt11char_traitsIcESaIcEEC1ERKNS_12basic_stringIcS2_S3_EESt13_Ios_Openmode',
+     '_ZNSt7__cxx1119basic_istringstreamIcSt11char_traitsIcESaIcEEC2ERKNS_12basic_stringIcS2_S3_EESt13_Ios_Openmode')
+def x_iss_ctor(eng, st, a):
+    p = a[0]
+    eng.mem_write(st, p, [0] * (ISS_VBASE + 264))
+    eng.mem_write(st, p, int_cells(eng.irm.gaddr['model_vtable_NSt7__cxx1119basic_istringstreamIcSt11char_traitsIcESaIcEEE'], 8))
+    _ios_init(eng, st, p + ISS_VBASE)
+    sb = p + ISS_BUF
+    eng.mem_write(st, p + ISS_VBASE + 232, int_cells(sb, 8))
+    data = cells_int(eng.mem_read(st, a[1], 8)); n = _len(eng, st, cells_int(eng.mem_read(st, a[1] + 8, 8)), 'string length')
+    o = st.alloc(n + 1, 'heap:malloc', 'istringstream buffer (model)', fill=0)
+    if n:
+        o.data[:n] = list(eng.mem_read(st, data, n))
+    eng.mem_write(st, sb + 8, int_cells(o.base, 8) + int_cells(o.base, 8) + int_cells(o.base + n, 8))
+    return 0
+
+
+@ext('_ZNSt7__cxx1119basic_istringstreamIcSt11char_traitsIcESaIcEED1Ev', '_ZNSt7__cxx1119basic_istringstreamIcSt11char_traitsIcESaIcEED2Ev')
+def x_iss_dtor(eng, st, a):
+    return 0
+
+
+def _extract_int(bits, signed):
+    """formatted integer input ([facet.num.get.virtuals], base 10): optional sign, digits; failbit if there is no digit or the
+    value does not fit (the value is then the nearest limit, C++11)"""
+    def f(eng, st, a):
+        ios, sb, gptr, egptr = _istream_area(eng, st, a[0])
+        state = cells_int(eng.mem_read(st, ios + IOS_STATE, 4))
+        if state != 0:
+            eng.mem_write(st, ios + IOS_STATE, int_cells(state | 4, 4)); return a[0]
+        flags = cells_int(eng.mem_read(st, ios + IOS_FLAGS, 4))
+        pos = gptr
+
+        def peek(p):
+            c = _cell_expr(eng.mem_read(st, p, 1)[0])
+            return c if isinstance(c, int) else eng.concretize(st, c, 'byte of an integer text', cap=600)
+        if flags & 0x1000:
+            while pos < egptr and peek(pos) in b' \t\n\v\f\r':
+                pos += 1
+        acc = ''
+        if pos < egptr and chr(peek(pos)) in '+-':
+            acc += chr(peek(pos)); pos += 1
+        nd = 0
+        while pos < egptr and chr(peek(pos)).isdigit() and chr(peek(pos)).isascii():
+            acc += chr(peek(pos)); pos += 1; nd += 1
+        ok = nd > 0
+        v = int(acc) if ok else 0
+        lo, hi = (-(1 << (bits - 1)), (1 << (bits - 1)) - 1) if signed else (0, (1 << bits) - 1)
+        if ok and not signed and acc.startswith('-'):
+            v = (1 << bits) + v if -v <= hi else hi; ok = ok and -int(acc[1:]) >= -hi
+        if v < lo:
+            v, ok = lo, False
+        if v > hi:
+            v, ok = hi, False
+        eng.mem_write(st, a[1], int_cells(v & ((1 << bits) - 1), bits // 8))
+        eng.mem_write(st, sb + 16, int_cells(pos, 8))
+        eng.mem_write(st, ios + IOS_STATE, int_cells((0 if ok else 4) | (2 if pos >= egptr else 0), 4))
+        return a[0]
+    return f
+
+
+EXTERNALS['_ZNSirsERi'] = _extract_int(32, True)
+EXTERNALS['_ZNSirsERs'] = _extract_int(16, True)
+EXTERNALS['_ZNSi10_M_extractIlEERSiRT_'] = _extract_int(64, True)
+EXTERNALS['_ZNSi10_M_extractIxEERSiRT_'] = _extract_int(64, True)
+EXTERNALS['_ZNSi10_M_extractImEERSiRT_'] = _extract_int(64, False)
+EXTERNALS['_ZNSi10_M_extractIyEERSiRT_'] = _extract_int(64, False)
+EXTERNALS['_ZNSi10_M_extractIjEERSiRT_'] = _extract_int(32, False)
+EXTERNALS['_ZNSi10_M_extractItEERSiRT_'] = _extract_int(16, False)
+
+
 @ext('_ZNSi3getEv')
 def x_istream_get(eng, st, a):
     ios, sb, gptr, egptr = _istream_area(eng, st, a[0])
